@@ -49,3 +49,10 @@ claim('C19',
 claim('C06',
   'bounded model checking of the real point formulas of ecp.c (Jacobian, mixed, affine; negation, addition, subtraction, doubling, tripling, conversions, on-curve test) over an exact small prime field supplied by the harness: for EVERY non-singular curve over GF(7) (thorough: GF(5..13)) and every point pair satisfying the curve equation - O, P=Q, P=-Q, order-2 points included - the result equals the textbook group law; scalar multiplication and the standard curves are not decided',
   'trusted: CBMC, the reference group law and the exact field in harness/C06/ecp.c; the library field layer is replaced (its arithmetic is C05)', 'DESIGN.md 3/C06')
+
+claim('C09',
+  'bounded model checking of the real high-level functions: (1) every documented argument condition negated with the scalar arguments symbolic at full width: the named error class is returned, outputs untouched, no low-level function entered; (2) verify-before-release for DWP/CHE/KWP unwrap over an uninterpreted cipher: a failing call leaves dest unchanged or zero; (3) allocation failure: every malloc may fail symbolically, the call returns ERR_OUTOFMEMORY exactly then, no NULL dereference, no leak',
+  'trusted: CBMC malloc-may-fail model and leak check; table of documented conditions transcribed from the headers (harness/C09/args.c); EC-based functions not covered', 'DESIGN.md 3/C09')
+claim('C15',
+  'bounded model checking with a ghost monitor: memWipe is modelled as "fill with 0xA5 and record the range", memFree asserts that the WHOLE block was wiped and that no octet was written afterwards; real blob.c (exact-size hook) and real high-level functions of belt/brng/botp/bash over uninterpreted kernels with symbolic secrets, success and error paths in one query; plus a lemma on the real memWipe',
+  'trusted: CBMC; the monitor in harness/C15/wipe_model.c; compiler honouring the volatile stores of memWipe is not checked; EC-based functions not covered', 'DESIGN.md 3/C15')
